@@ -35,11 +35,12 @@ Proof. unfold walk_keeps_file, spec_compiled. now rewrite excluded_exts_table. Q
 Lemma hx_suffix_spec p : hx_suffix_cond p = spec_compiled (last p "").
 Proof. unfold hx_suffix_cond, spec_compiled, parts_suffix. now rewrite excluded_exts_table. Qed.
 
-Lemma is_hardcoded_excluded_shape p : is_hardcoded_excluded p = hx_suffix_cond p || existsb hx_part_cond p.
+(* since 27377de the directory-name test ranges over the components before the file name *)
+Lemma is_hardcoded_excluded_shape p : is_hardcoded_excluded p = hx_suffix_cond p || existsb hx_part_cond (removelast p).
 Proof.
   unfold is_hardcoded_excluded, hx_suffix_cond. destruct (smem (parts_suffix p) excluded_exts); [reflexivity|].
   cbn [orb]. change (fun part : string => smem part excluded_dirs || ends_with part ".egg-info") with hx_part_cond.
-  now destruct (existsb hx_part_cond p).
+  now destruct (existsb hx_part_cond (removelast p)).
 Qed.
 
 Lemma walk_breaks_spec r : walk_breaks r = negb r.
@@ -58,20 +59,25 @@ Proof. reflexivity. Qed.
 Lemma is_ignored_core_spec mp path pats : is_ignored_core mp path pats = existsb (mp path) pats.
 Proof. reflexivity. Qed.
 
-Lemma matches_pattern_gen_spec f d path pat :
-  matches_pattern_gen f d path pat = if ends_with pat "/" then d path pat else f path pat || f (path_norm path) pat.
-Proof. reflexivity. Qed.
+(* since 9c8f928: a pattern that starts with "**/" is also tried without that prefix (recursive call),
+   a directory pattern is tested against the directory components and matched as a whole component prefix *)
+Lemma matches_pattern_gen_spec self f d path pat :
+  matches_pattern_gen self f d path pat
+  = (starts_with pat "**/" && self path (sdrop 3 pat))
+    || (if ends_with pat "/" then d path pat else f path pat || f (path_norm path) pat).
+Proof. unfold matches_pattern_gen. now destruct (starts_with pat "**/" && self path (sdrop 3 pat)). Qed.
 
 Lemma matches_directory_pattern_gen_spec f path pat :
   matches_directory_pattern_gen f path pat
-  = smem (rstrip_chars pat "/") (path_parts path) || f path (rstrip_chars pat "/" ++ "*")%string.
-Proof. unfold matches_directory_pattern_gen. now destruct (smem (rstrip_chars pat "/") (path_parts path)). Qed.
+  = smem (rstrip_chars pat "/") (removelast (path_parts path)) || f path (rstrip_chars pat "/" ++ "/*")%string.
+Proof. unfold matches_directory_pattern_gen. now destruct (smem (rstrip_chars pat "/") (removelast (path_parts path))). Qed.
 
 Lemma extract_patterns_gen_spec ls :
   extract_patterns_gen ls = filter (fun l => nonempty l && negb (starts_with l "#")) (map strip_ws ls).
 Proof. reflexivity. Qed.
 
+(* since bbae54e: .thailintignore and the config's list are combined; .thailint.json is consulted when there is no .thailint.yaml *)
 Lemma source_names :
-  thailintignore_name = ".thailintignore"%string /\ ignore_config_name = ".thailint.yaml"%string /\ ignore_config_key = "ignore"%string
-  /\ cli_paths_shape_checked = true.
+  thailintignore_name = ".thailintignore"%string /\ ignore_config_names = [".thailint.yaml"; ".thailint.json"]%string
+  /\ load_combines_sources = true /\ ignore_config_key = "ignore"%string /\ cli_paths_shape_checked = true.
 Proof. repeat split. Qed.
